@@ -1,6 +1,7 @@
-(** VirtualStep: C11 at the level of a WHOLE resolution step (end-to-end model): if the coarse graph handed to a level-0 step
-    contains a fragment-less node V all of whose edges have order 0, the step returns exactly what it returns for the coarse
-    graph with V removed (nx remove_node): same fine graph, same graph for every other coarse node; V's own graph is empty. *)
+(** VirtualStep: C11 at the level of a WHOLE resolution step (end-to-end model, any level): if the coarse graph the stages of a
+    step see contains a fragment-less node V all of whose edges have the integer order 0, the step returns exactly when the step
+    on the coarse graph with V removed (nx remove_node) returns, and then with the same fine graph and the same graph for every
+    other coarse node; V's own graph is empty. *)
 From Coq Require Import String.
 From Coq Require Import List Ascii ZArith Bool Lia Sorting.Permutation.
 From CGV Require Import Base.PyBase Base.PyVal Base.NxGraph Resolve.Bonding Resolve.GraphOps Resolve.Pipeline Resolve.PipelineFull
@@ -269,56 +270,110 @@ Proof.
   destruct (Z.eqb k kv); cbn [negb]; [exact IH|]. cbn [map fst snd]. now rewrite IH.
 Qed.
 
-(** C11 for a whole level-0 step (end-to-end model): with the fragment-less node V (all its edges integer order 0) in the coarse
-    graph the step returns the same fine graph, and the same node set for every other coarse node, as for the coarse graph
-    without V; V's own graph has no node. *)
-Theorem step_remove_virtual legacy aa fd prev car fo' kv : wf_dict fd -> wf_attrs fd -> NoDup (node_keys prev) ->
-  get_node_attributes prev (S "atomname") = [] -> vnode fd kv prev ->
-  resolve_step_full legacy aa fd prev car = Ok fo' ->
-  exists fo, resolve_step_full legacy aa fd (remove_node prev kv) car = Ok fo /\
-    fo_mol fo = fo_mol fo' /\ fo_m2 fo = fo_m2 fo' /\ fo_m5 fo = fo_m5 fo' /\
-    fg_keys (fo_fgs fo) = filter (notkv kv) (fg_keys (fo_fgs fo')) /\
-    (forall g, In (kv, g) (fo_fgs fo') -> node_keys g = []).
+(** ---------------------------------------------------------------- the coarse graph the stages see *)
+(** resolve_step_full works on [meta_in prev]: 'fragname' := 'atomname' where a node has one (levels >= 1) *)
+Definition meta_in (prev : graph) : graph := set_nodes_from prev (S "fragname") (get_node_attributes prev (S "atomname")).
+Definition upd_from (a b : pystr) (n : nrec) : nrec :=
+  match aget b (na n) with Some v => {| nk := nk n; na := aset a v (na n); nadj := nadj n |} | None => n end.
+Lemma gupdate_app_skip k f pre r : ~ In k (node_keys pre) -> gupdate k f (pre ++ r) = pre ++ gupdate k f r.
 Proof.
-  intros Hw Hwa Hn Hat V H.
-  destruct (step_tail _ _ _ _ _ _ Hw Hwa H) as [I6 [fgs0 [Ea Ht]]].
-  assert (fo_meta fo' = prev) as Hmeta.
-  { revert H. unfold resolve_step_full. rewrite Hat. change (set_nodes_from prev (S "fragname") []) with prev.
-    destruct (resolve_disconnected fd prev) as [[m1 fg1]|]; cbn [bind]; [|discriminate].
-    destruct (bonding_step legacy aa prev m1 fg1) as [[m2 fg2]|]; cbn [bind]; [|discriminate].
-    destruct (Squash.squash_atoms m2) as [m3|]; cbn [bind]; [|discriminate].
-    destruct (if aa then Hydrogens.rebuild_h_atoms_default m3 car else Ok m3) as [m4|]; cbn [bind]; [|discriminate].
-    destruct (sort_nodes_by_attr m4) as [m5|]; cbn [bind]; [|discriminate].
-    destruct (if aa then EzImpl.annotate_ez_isomers_cgsmiles m5 else Ok m5) as [m6|]; cbn [bind]; [|discriminate].
-    destruct (annotate_fragments prev m6) as [f6|]; cbn [bind]; [|discriminate].
-    destruct (if aa then set_atom_names m6 prev f6 else Ok (m6, f6)) as [[m7 f7]|]; cbn [bind]; [|discriminate].
-    intros H. apply ok_some in H. now subst fo'. }
-  rewrite Hmeta in *.
-  (* V's graph has no node *)
-  assert (forall g, In (kv, g) fgs0 -> node_keys g = []) as Hempty.
-  { intros g Hg. destruct (node_keys g) as [|n r] eqn:En; [reflexivity|]. exfalso. apply (kv_not_real fd kv prev V).
-    apply (records_good _ (fo_m6 fo') n kv I6). apply (frag_exact _ _ _ Ea kv g Hg n). rewrite En. now left. }
-  assert (forall g, fg_get kv fgs0 = Some g -> g = []) as Hget.
-  { intros g Hg. apply keys_nil_graph, Hempty. clear -Hg. induction fgs0 as [|[k h] r IH]; cbn in Hg; [discriminate|].
-    destruct (Z.eqb_spec kv k) as [->|N]; [inversion Hg; now left|right; auto]. }
-  pose proof (annotate_remove kv _ _ _ Ea) as Ea'. pose proof (fraglist_remove kv prev fgs0 Hget) as Hfl.
-  (* run the step on the coarse graph without V *)
-  revert H Ht. unfold resolve_step_full. rewrite Hat, (gna_remove kv prev _ Hat).
-  change (set_nodes_from prev (S "fragname") []) with prev. change (set_nodes_from (remove_node prev kv) (S "fragname") []) with (remove_node prev kv).
-  rewrite (disconnected_remove fd kv prev V).
-  destruct (resolve_disconnected fd prev) as [[m1 fg1]|]; cbn [bind]; [|discriminate].
-  rewrite (bonding_remove legacy aa fd kv prev m1 fg1 Hn V).
-  destruct (bonding_step legacy aa prev m1 fg1) as [[m2 fg2]|]; cbn [bind]; [|discriminate].
+  induction pre as [|m l IH]; cbn; intros H; [reflexivity|]. destruct (Z.eqb_spec (nk m) k) as [E|N]; [exfalso; apply H; now left|].
+  f_equal. apply IH. intros X. apply H. now right.
+Qed.
+Lemma set_from_closed a b : forall g pre, NoDup (node_keys pre ++ node_keys g) ->
+  set_nodes_from (pre ++ g) a (get_node_attributes g b) = pre ++ map (upd_from a b) g.
+Proof.
+  unfold set_nodes_from, get_node_attributes. induction g as [|n r IH]; intros pre Hn; cbn [flat_map map fold_left]; [reflexivity|].
+  assert (NoDup (node_keys (pre ++ [upd_from a b n]) ++ node_keys r)) as Hn2.
+  { unfold node_keys in *. rewrite map_app, <- app_assoc. cbn [map app]. replace (nk (upd_from a b n)) with (nk n); [exact Hn|].
+    unfold upd_from. destruct (aget b (na n)); reflexivity. }
+  specialize (IH (pre ++ [upd_from a b n]) Hn2). rewrite <- !app_assoc in IH. cbn [app] in IH.
+  remember (upd_from a b n) as un eqn:Eu. unfold upd_from in Eu.
+  rewrite fold_left_app. destruct (aget b (na n)) as [v|] eqn:E; cbn [fold_left fst snd].
+  - unfold set_node_attr at 2. rewrite gupdate_app_skip.
+    + cbn [gupdate]. rewrite Z.eqb_refl. rewrite <- Eu. exact IH.
+    + apply NoDup_remove_2 in Hn. intros X. apply Hn. apply in_or_app. now left.
+  - subst un. exact IH.
+Qed.
+Lemma meta_in_closed prev : NoDup (node_keys prev) -> meta_in prev = map (upd_from (S "fragname") (S "atomname")) prev.
+Proof. intros H. exact (set_from_closed (S "fragname") (S "atomname") prev [] H). Qed.
+Lemma remove_node_keys_nodup g kv : NoDup (node_keys g) -> NoDup (node_keys (remove_node g kv)).
+Proof.
+  rewrite remove_node_eq. unfold node_keys. rewrite map_map. cbn [adjdel nk].
+  induction g as [|n r IH]; cbn [filter map]; intros H; [constructor|]. inversion H as [|? ? Hx Hr]; subst.
+  destruct (keep kv n); cbn [map]; [|now apply IH]. constructor; [|now apply IH].
+  intros X. apply Hx. apply in_map_iff in X as [m [Em Hm]]. apply filter_In in Hm as [Hm _]. apply in_map_iff. exists m. auto.
+Qed.
+Lemma meta_remove prev kv : NoDup (node_keys prev) -> meta_in (remove_node prev kv) = remove_node (meta_in prev) kv.
+Proof.
+  intros H. rewrite (meta_in_closed _ (remove_node_keys_nodup prev kv H)), (meta_in_closed prev H), !remove_node_eq.
+  induction prev as [|n r IH]; [reflexivity|]. inversion H; subst. cbn [map filter].
+  replace (keep kv (upd_from (S "fragname") (S "atomname") n)) with (keep kv n) by (unfold keep, upd_from; destruct (aget _ (na n)); reflexivity).
+  destruct (keep kv n); cbn [map]; [|now apply IH]. f_equal; [|now apply IH].
+  unfold upd_from, adjdel. cbn [na nk nadj]. destruct (aget (S "atomname") (na n)); reflexivity.
+Qed.
+Lemma set_from_keys a d : forall g, node_keys (set_nodes_from g a d) = node_keys g.
+Proof. unfold set_nodes_from. induction d as [|x r IH]; cbn [fold_left]; intros g; [reflexivity|]. now rewrite IH, keys_set. Qed.
+
+(** the step as a function of that coarse graph *)
+Definition step_on (legacy aa : bool) (fd : fragdict) (meta : graph) (car : option graph) : res full_out :=
+  '(m1, fg1) <- resolve_disconnected fd meta ;;
+  '(m2, fg2) <- bonding_step legacy aa meta m1 fg1 ;;
+  m3 <- Squash.squash_atoms m2 ;;
+  m4 <- (if aa then Hydrogens.rebuild_h_atoms_default m3 car else Ok m3) ;;
+  m5 <- sort_nodes_by_attr m4 ;;
+  m6 <- (if aa then EzImpl.annotate_ez_isomers_cgsmiles m5 else Ok m5) ;;
+  fgs <- annotate_fragments meta m6 ;;
+  '(m7, fgs') <- (if aa then set_atom_names m6 meta fgs else Ok (m6, fgs)) ;;
+  Ok {| fo_meta := meta; fo_m2 := m2; fo_m3 := m3; fo_m4 := m4; fo_m5 := m5; fo_m6 := m6; fo_mol := m7; fo_fgs := fgs' |}.
+Lemma step_on_eq legacy aa fd prev car : resolve_step_full legacy aa fd prev car = step_on legacy aa fd (meta_in prev) car.
+Proof. reflexivity. Qed.
+Lemma step_on_meta legacy aa fd M car fo : step_on legacy aa fd M car = Ok fo -> fo_meta fo = M.
+Proof.
+  unfold step_on.
+  destruct (resolve_disconnected fd M) as [[m1 fg1]|]; cbn [bind]; [|discriminate].
+  destruct (bonding_step legacy aa M m1 fg1) as [[m2 fg2]|]; cbn [bind]; [|discriminate].
   destruct (Squash.squash_atoms m2) as [m3|]; cbn [bind]; [|discriminate].
   destruct (if aa then Hydrogens.rebuild_h_atoms_default m3 car else Ok m3) as [m4|]; cbn [bind]; [|discriminate].
   destruct (sort_nodes_by_attr m4) as [m5|]; cbn [bind]; [|discriminate].
   destruct (if aa then EzImpl.annotate_ez_isomers_cgsmiles m5 else Ok m5) as [m6|]; cbn [bind]; [|discriminate].
-  destruct (annotate_fragments prev m6) as [fgs|] eqn:E7; cbn [bind]; [|discriminate].
-  destruct (if aa then set_atom_names m6 prev fgs else Ok (m6, fgs)) as [[m7 fgs7]|] eqn:E8; cbn [bind]; [|discriminate].
-  intros H Ht. apply ok_some in H. subst fo'. cbn [fo_mol fo_m2 fo_m5 fo_m6 fo_fgs fo_meta] in *.
-  rewrite E7 in Ea. apply ok_some in Ea. subst fgs0. rewrite Ea'. cbn [bind].
+  destruct (annotate_fragments M m6) as [f6|]; cbn [bind]; [|discriminate].
+  destruct (if aa then set_atom_names m6 M f6 else Ok (m6, f6)) as [[m7 f7]|]; cbn [bind]; [|discriminate].
+  intros H. apply ok_some in H. now subst fo.
+Qed.
+
+(** with the fragment-less node V (all its edges integer order 0) in the coarse graph M the step returns the same fine graph, and
+    the same node set for every other coarse node, as for M without V; V's own graph has no node *)
+Lemma core_remove legacy aa fd M car fo' kv : NoDup (node_keys M) -> vnode fd kv M ->
+  step_on legacy aa fd M car = Ok fo' -> fid_inv (flat_map (real_of fd) M) (fo_m6 fo') ->
+  exists fo, step_on legacy aa fd (remove_node M kv) car = Ok fo /\
+    fo_mol fo = fo_mol fo' /\ fo_m2 fo = fo_m2 fo' /\ fo_m5 fo = fo_m5 fo' /\
+    fg_keys (fo_fgs fo) = filter (notkv kv) (fg_keys (fo_fgs fo')) /\
+    (forall g, In (kv, g) (fo_fgs fo') -> node_keys g = []).
+Proof.
+  intros Hn V H I6. revert H I6. unfold step_on.
+  rewrite (disconnected_remove fd kv M V).
+  destruct (resolve_disconnected fd M) as [[m1 fg1]|]; cbn [bind]; [|discriminate].
+  rewrite (bonding_remove legacy aa fd kv M m1 fg1 Hn V).
+  destruct (bonding_step legacy aa M m1 fg1) as [[m2 fg2]|]; cbn [bind]; [|discriminate].
+  destruct (Squash.squash_atoms m2) as [m3|]; cbn [bind]; [|discriminate].
+  destruct (if aa then Hydrogens.rebuild_h_atoms_default m3 car else Ok m3) as [m4|]; cbn [bind]; [|discriminate].
+  destruct (sort_nodes_by_attr m4) as [m5|]; cbn [bind]; [|discriminate].
+  destruct (if aa then EzImpl.annotate_ez_isomers_cgsmiles m5 else Ok m5) as [m6|]; cbn [bind]; [|discriminate].
+  destruct (annotate_fragments M m6) as [fgs|] eqn:E7; cbn [bind]; [|discriminate].
+  destruct (if aa then set_atom_names m6 M fgs else Ok (m6, fgs)) as [[m7 fgs7]|] eqn:E8; cbn [bind]; [|discriminate].
+  intros H I6. apply ok_some in H. subst fo'. cbn [fo_mol fo_m2 fo_m5 fo_m6 fo_fgs fo_meta] in *.
+  (* V's graph has no node *)
+  assert (forall g, In (kv, g) fgs -> node_keys g = []) as Hempty.
+  { intros g Hg. destruct (node_keys g) as [|n r] eqn:En; [reflexivity|]. exfalso. apply (kv_not_real fd kv M V).
+    apply (records_good _ m6 n kv I6). apply (frag_exact _ _ _ E7 kv g Hg n). rewrite En. now left. }
+  assert (forall g, fg_get kv fgs = Some g -> g = []) as Hget.
+  { intros g Hg. apply keys_nil_graph, Hempty. clear -Hg. induction fgs as [|[k h] r IH]; cbn in Hg; [discriminate|].
+    destruct (Z.eqb_spec kv k) as [->|N]; [inversion Hg; now left|right; auto]. }
+  pose proof (annotate_remove kv _ _ _ E7) as Ea'. pose proof (fraglist_remove kv M fgs Hget) as Hfl.
+  rewrite Ea'. cbn [bind].
   destruct aa.
-  - destruct (names_indep m6 prev fgs (remove_node prev kv) (filter (notkv kv) fgs) m7 fgs7 Hfl E8) as [f2' E2]. rewrite E2. cbn [bind].
+  - destruct (names_indep m6 M fgs (remove_node M kv) (filter (notkv kv) fgs) m7 fgs7 Hfl E8) as [f2' E2]. rewrite E2. cbn [bind].
     eexists. split; [reflexivity|]. cbn [fo_mol fo_m2 fo_m5 fo_fgs]. repeat split.
     + rewrite (set_atom_names_keys _ _ _ _ _ E2), (set_atom_names_keys _ _ _ _ _ E8). apply fg_keys_filter.
     + intros g Hg. assert (In (kv, node_keys g) (fg_keys fgs)) as Hk.
@@ -329,7 +384,7 @@ Proof.
     + exact Hempty.
 Qed.
 
-(** ---------------------------------------------------------------- the converse: putting the virtual node back *)
+(** the converse: putting the virtual node back *)
 Lemma map_res_unfilter {A B} (F : A -> res B) (p : A -> bool) : forall l ys, GraphOps.map_res F (filter p l) = Ok ys ->
   (forall x, In x l -> p x = false -> exists y, F x = Ok y) -> exists zs, GraphOps.map_res F l = Ok zs.
 Proof.
@@ -356,64 +411,95 @@ Proof.
   eexists. reflexivity.
 Qed.
 
-(** the step on the coarse graph WITH the virtual node returns whenever the step on the graph without it does *)
-Theorem step_insert_virtual legacy aa fd prev car fo kv : wf_dict fd -> wf_attrs fd -> NoDup (node_keys prev) ->
-  get_node_attributes prev (S "atomname") = [] -> vnode fd kv prev ->
-  resolve_step_full legacy aa fd (remove_node prev kv) car = Ok fo ->
-  exists fo', resolve_step_full legacy aa fd prev car = Ok fo'.
+Lemma core_insert legacy aa fd M car fo kv : NoDup (node_keys M) -> vnode fd kv M ->
+  step_on legacy aa fd (remove_node M kv) car = Ok fo -> fid_inv (flat_map (real_of fd) (remove_node M kv)) (fo_m6 fo) ->
+  exists fo', step_on legacy aa fd M car = Ok fo'.
 Proof.
-  intros Hw Hwa Hn Hat V H.
-  destruct (step_tail _ _ _ _ _ _ Hw Hwa H) as [I6 _].
-  assert (fo_meta fo = remove_node prev kv) as Hmeta.
-  { revert H. unfold resolve_step_full. rewrite (gna_remove kv prev _ Hat).
-    change (set_nodes_from (remove_node prev kv) (S "fragname") []) with (remove_node prev kv).
-    destruct (resolve_disconnected fd (remove_node prev kv)) as [[m1 fg1]|]; cbn [bind]; [|discriminate].
-    destruct (bonding_step legacy aa (remove_node prev kv) m1 fg1) as [[m2 fg2]|]; cbn [bind]; [|discriminate].
-    destruct (Squash.squash_atoms m2) as [m3|]; cbn [bind]; [|discriminate].
-    destruct (if aa then Hydrogens.rebuild_h_atoms_default m3 car else Ok m3) as [m4|]; cbn [bind]; [|discriminate].
-    destruct (sort_nodes_by_attr m4) as [m5|]; cbn [bind]; [|discriminate].
-    destruct (if aa then EzImpl.annotate_ez_isomers_cgsmiles m5 else Ok m5) as [m6|]; cbn [bind]; [|discriminate].
-    destruct (annotate_fragments (remove_node prev kv) m6) as [f6|]; cbn [bind]; [|discriminate].
-    destruct (if aa then set_atom_names m6 (remove_node prev kv) f6 else Ok (m6, f6)) as [[m7 f7]|]; cbn [bind]; [|discriminate].
-    intros H. apply ok_some in H. now subst fo. }
+  intros Hn V H I6.
   assert (forall n, ~ records (fo_m6 fo) n kv) as Hnr.
-  { intros n Hr. pose proof (records_good _ _ n kv I6 Hr) as Hin. rewrite Hmeta in Hin. apply in_flat_map in Hin as [mn [Hmn Hk]].
+  { intros n Hr. pose proof (records_good _ _ n kv I6 Hr) as Hin. apply in_flat_map in Hin as [mn [Hmn Hk]].
     rewrite remove_node_eq in Hmn. apply in_map_iff in Hmn as [m0 [<- Hm0]]. apply filter_In in Hm0 as [_ Hkeep].
     unfold real_of in Hk. change (na (adjdel kv m0)) with (na m0) in Hk. change (nk (adjdel kv m0)) with (nk m0) in Hk.
     destruct (aget (S "fragname") (na m0)); [|contradiction]. destruct (lookup_fragment fd p); [|contradiction].
     destruct Hk as [Hk|[]]. unfold keep in Hkeep. rewrite Hk, Z.eqb_refl in Hkeep. discriminate Hkeep. }
-  revert H Hnr. unfold resolve_step_full. rewrite Hat, (gna_remove kv prev _ Hat).
-  change (set_nodes_from prev (S "fragname") []) with prev. change (set_nodes_from (remove_node prev kv) (S "fragname") []) with (remove_node prev kv).
-  rewrite (disconnected_remove fd kv prev V).
-  destruct (resolve_disconnected fd prev) as [[m1 fg1]|]; cbn [bind]; [|discriminate].
-  rewrite (bonding_remove legacy aa fd kv prev m1 fg1 Hn V).
-  destruct (bonding_step legacy aa prev m1 fg1) as [[m2 fg2]|]; cbn [bind]; [|discriminate].
+  clear I6. revert H Hnr. unfold step_on.
+  rewrite (disconnected_remove fd kv M V).
+  destruct (resolve_disconnected fd M) as [[m1 fg1]|]; cbn [bind]; [|discriminate].
+  rewrite (bonding_remove legacy aa fd kv M m1 fg1 Hn V).
+  destruct (bonding_step legacy aa M m1 fg1) as [[m2 fg2]|]; cbn [bind]; [|discriminate].
   destruct (Squash.squash_atoms m2) as [m3|]; cbn [bind]; [|discriminate].
   destruct (if aa then Hydrogens.rebuild_h_atoms_default m3 car else Ok m3) as [m4|]; cbn [bind]; [|discriminate].
   destruct (sort_nodes_by_attr m4) as [m5|]; cbn [bind]; [|discriminate].
   destruct (if aa then EzImpl.annotate_ez_isomers_cgsmiles m5 else Ok m5) as [m6|]; cbn [bind]; [|discriminate].
-  destruct (annotate_fragments (remove_node prev kv) m6) as [fgsR|] eqn:E7; cbn [bind]; [|discriminate].
-  destruct (if aa then set_atom_names m6 (remove_node prev kv) fgsR else Ok (m6, fgsR)) as [[m7 fgs7]|] eqn:E8; cbn [bind]; [|discriminate].
+  destruct (annotate_fragments (remove_node M kv) m6) as [fgsR|] eqn:E7; cbn [bind]; [|discriminate].
+  destruct (if aa then set_atom_names m6 (remove_node M kv) fgsR else Ok (m6, fgsR)) as [[m7 fgs7]|] eqn:E8; cbn [bind]; [|discriminate].
   intros H Hnr. apply ok_some in H. subst fo. cbn [fo_m6] in Hnr.
-  destruct (annotate_insert kv prev m6 fgsR E7 Hnr) as [fgs Ea]. rewrite Ea. cbn [bind].
+  destruct (annotate_insert kv M m6 fgsR E7 Hnr) as [fgs Ea]. rewrite Ea. cbn [bind].
   pose proof (annotate_remove kv _ _ _ Ea) as Ea'. rewrite E7 in Ea'. apply ok_some in Ea'. subst fgsR.
   destruct aa; [|eexists; reflexivity].
   assert (forall g, fg_get kv fgs = Some g -> g = []) as Hget.
   { intros g Hg. apply keys_nil_graph. destruct (node_keys g) as [|n r] eqn:En; [reflexivity|]. exfalso. apply (Hnr n).
     apply (frag_exact _ _ _ Ea kv g); [|rewrite En; now left]. clear -Hg. induction fgs as [|[k h] r' IH]; cbn in Hg; [discriminate|].
     destruct (Z.eqb_spec kv k) as [->|N]; [inversion Hg; now left|right; auto]. }
-  pose proof (fraglist_remove kv prev fgs Hget) as Hfl.
-  destruct (names_indep m6 (remove_node prev kv) (filter (notkv kv) fgs) prev fgs m7 fgs7 (eq_sym Hfl) E8) as [f2' E2]. rewrite E2. cbn [bind].
+  pose proof (fraglist_remove kv M fgs Hget) as Hfl.
+  destruct (names_indep m6 (remove_node M kv) (filter (notkv kv) fgs) M fgs m7 fgs7 (eq_sym Hfl) E8) as [f2' E2]. rewrite E2. cbn [bind].
   eexists. reflexivity.
 Qed.
 
-(** both directions: the two steps return together *)
+(** ---------------------------------------------------------------- the theorems on resolve_step_full, any level *)
+(** C11 for a whole step at ANY level (end-to-end model): if node kv of the coarse graph the stages see names no fragment and all
+    its edges carry the integer order 0, the step returns the same fine graph, and the same node set for every other coarse
+    node, as for the coarse graph without kv (networkx remove_node); kv's own graph has no node *)
+Theorem step_remove_virtual_any legacy aa fd prev car fo' kv : wf_dict fd -> wf_attrs fd -> NoDup (node_keys prev) ->
+  vnode fd kv (meta_in prev) ->
+  resolve_step_full legacy aa fd prev car = Ok fo' ->
+  exists fo, resolve_step_full legacy aa fd (remove_node prev kv) car = Ok fo /\
+    fo_mol fo = fo_mol fo' /\ fo_m2 fo = fo_m2 fo' /\ fo_m5 fo = fo_m5 fo' /\
+    fg_keys (fo_fgs fo) = filter (notkv kv) (fg_keys (fo_fgs fo')) /\
+    (forall g, In (kv, g) (fo_fgs fo') -> node_keys g = []).
+Proof.
+  intros Hw Hwa Hn V H. destruct (step_tail _ _ _ _ _ _ Hw Hwa H) as [I6 _].
+  rewrite step_on_eq in H. rewrite (step_on_meta _ _ _ _ _ _ H) in I6.
+  rewrite step_on_eq, (meta_remove prev kv Hn).
+  apply core_remove; [unfold meta_in; now rewrite set_from_keys|exact V|exact H|exact I6].
+Qed.
+Theorem step_insert_virtual_any legacy aa fd prev car fo kv : wf_dict fd -> wf_attrs fd -> NoDup (node_keys prev) ->
+  vnode fd kv (meta_in prev) ->
+  resolve_step_full legacy aa fd (remove_node prev kv) car = Ok fo ->
+  exists fo', resolve_step_full legacy aa fd prev car = Ok fo'.
+Proof.
+  intros Hw Hwa Hn V H. destruct (step_tail _ _ _ _ _ _ Hw Hwa H) as [I6 _].
+  rewrite step_on_eq in H. rewrite (step_on_meta _ _ _ _ _ _ H) in I6. rewrite (meta_remove prev kv Hn) in H, I6.
+  rewrite step_on_eq. eapply core_insert; [unfold meta_in; now rewrite set_from_keys|exact V|exact H|exact I6].
+Qed.
+Theorem step_virtual_iff_any legacy aa fd prev car kv : wf_dict fd -> wf_attrs fd -> NoDup (node_keys prev) ->
+  vnode fd kv (meta_in prev) ->
+  ((exists fo', resolve_step_full legacy aa fd prev car = Ok fo') <->
+   (exists fo, resolve_step_full legacy aa fd (remove_node prev kv) car = Ok fo)).
+Proof.
+  intros Hw Hwa Hn V. split.
+  - intros [fo' H]. destruct (step_remove_virtual_any _ _ _ _ _ _ _ Hw Hwa Hn V H) as [fo [E _]]. eauto.
+  - intros [fo H]. eapply step_insert_virtual_any; eassumption.
+Qed.
+
+(** ---------------------------------------------------------------- level 0: the coarse graph is the one handed in *)
+Lemma meta_in_level0 prev : get_node_attributes prev (S "atomname") = [] -> meta_in prev = prev.
+Proof. intros H. unfold meta_in. now rewrite H. Qed.
+Theorem step_remove_virtual legacy aa fd prev car fo' kv : wf_dict fd -> wf_attrs fd -> NoDup (node_keys prev) ->
+  get_node_attributes prev (S "atomname") = [] -> vnode fd kv prev ->
+  resolve_step_full legacy aa fd prev car = Ok fo' ->
+  exists fo, resolve_step_full legacy aa fd (remove_node prev kv) car = Ok fo /\
+    fo_mol fo = fo_mol fo' /\ fo_m2 fo = fo_m2 fo' /\ fo_m5 fo = fo_m5 fo' /\
+    fg_keys (fo_fgs fo) = filter (notkv kv) (fg_keys (fo_fgs fo')) /\
+    (forall g, In (kv, g) (fo_fgs fo') -> node_keys g = []).
+Proof. intros Hw Hwa Hn Hat V. apply step_remove_virtual_any; try assumption. now rewrite (meta_in_level0 _ Hat). Qed.
+Theorem step_insert_virtual legacy aa fd prev car fo kv : wf_dict fd -> wf_attrs fd -> NoDup (node_keys prev) ->
+  get_node_attributes prev (S "atomname") = [] -> vnode fd kv prev ->
+  resolve_step_full legacy aa fd (remove_node prev kv) car = Ok fo ->
+  exists fo', resolve_step_full legacy aa fd prev car = Ok fo'.
+Proof. intros Hw Hwa Hn Hat V. apply step_insert_virtual_any; try assumption. now rewrite (meta_in_level0 _ Hat). Qed.
 Theorem step_virtual_iff legacy aa fd prev car kv : wf_dict fd -> wf_attrs fd -> NoDup (node_keys prev) ->
   get_node_attributes prev (S "atomname") = [] -> vnode fd kv prev ->
   ((exists fo', resolve_step_full legacy aa fd prev car = Ok fo') <->
    (exists fo, resolve_step_full legacy aa fd (remove_node prev kv) car = Ok fo)).
-Proof.
-  intros Hw Hwa Hn Hat V. split.
-  - intros [fo' H]. destruct (step_remove_virtual _ _ _ _ _ _ _ Hw Hwa Hn Hat V H) as [fo [E _]]. eauto.
-  - intros [fo H]. eapply step_insert_virtual; eassumption.
-Qed.
+Proof. intros Hw Hwa Hn Hat V. apply step_virtual_iff_any; try assumption. now rewrite (meta_in_level0 _ Hat). Qed.
